@@ -153,12 +153,24 @@ func sessProject(s *astisub.Subtitles, at *atoms) (cues []sessCue, fps int, grid
 // notRepresentable lists the destination formats that cannot carry some text of the list.
 func notRepresentable(s *astisub.Subtitles) []string {
 	out := []string{}
-	stl, ssa := false, false
+	stl, ssa, blank := false, false, false
 	for _, it := range s.Items {
 		t := normText(it)
 		n := 0
+		empty := false
 		for _, l := range it.Lines {
 			n += 3
+			// an empty line that is followed by text: in SubRip and WebVTT a blank line ends the cue, so a text with a
+			// blank line before or inside it has no rendering there
+			lt := ""
+			for _, li := range l.Items {
+				lt += li.Text
+			}
+			if strings.TrimSpace(lt) == "" {
+				empty = true
+			} else if empty {
+				blank = true
+			}
 			for _, li := range l.Items {
 				n += len([]rune(li.Text)) + 4
 				// braces and backslashes are SubStation Alpha's override syntax: a text holding them is not
@@ -177,6 +189,9 @@ func notRepresentable(s *astisub.Subtitles) []string {
 	}
 	if ssa {
 		out = append(out, "ssa", "ass")
+	}
+	if blank {
+		out = append(out, "srt", "vtt")
 	}
 	return out
 }
